@@ -33,7 +33,7 @@ var defaultPure = []string{
 	"(*log.Logger).Printf", "(*log.Logger).Print", "(*log.Logger).Println", "log.Printf", "log.Print", "log.Println",
 	"(*regexp.Regexp).FindStringSubmatch", "(*regexp.Regexp).MatchString", "(*regexp.Regexp).SubexpNames", "(*regexp.Regexp).FindAllStringSubmatch",
 	"(*url.URL).String", "url.Parse", "(*url.URL).Hostname", "(*url.URL).Port",
-	"binary.Size", "math.*", "bits.*", "rand.Read", "rand.Int", "rand.Intn", "rand.Uint32",
+	"binary.Size", "math.*", "bits.*", "rand.Read", "rand.ReadContext", "rand.Int", "rand.Intn", "rand.Uint32",
 	"(uuid.UUID).String",
 	"(iana.Arch).String", "(iana.HWType).String", "(iana.StatusCode).String", "(iana.EnterpriseID).String",
 }
@@ -97,6 +97,12 @@ func (a *Act) ghostCall(res ssa.Value, instr ssa.Instruction, fn *ssa.Function, 
 			g.assumeIf(reach, args[0])
 			return true
 		}
+	}
+	if fn.Name() == "specZeros" && g.eng.inRepo(fn) && len(args) == 1 {
+		if res != nil {
+			a.bind(res, fmt.Sprintf("(szeros %s)", args[0]))
+		}
+		return true
 	}
 	if fn.Name() == "specByte" && g.eng.inRepo(fn) && len(args) == 1 {
 		if res != nil {
